@@ -21,6 +21,13 @@ class SymbolicError(Exception):
     pass
 
 
+# Only for the integrated-Legendre family (vlib/c09_pp.py): NumPy computes the coefficients of Legendre(c).integ() in
+# floats, so they carry round-off (e.g. an integration constant of -5.6e-17 instead of 0).  With SNAP on, a float is
+# replaced by the small-denominator rational within 4e-16 (relative to max(1,|c|)) of it — the IDEAL coefficient —
+# and the tie of those classes is the tolerance correspondence, not exact evaluation.  Off for every other class.
+SNAP = False
+
+
 def rat(c):
     """exact rational meant by a numeric literal/constant of the source"""
     if isinstance(c, Fr):
@@ -35,6 +42,8 @@ def rat(c):
             raise NonRational(f'non-finite constant {c!r}')
         f = Fr(c).limit_denominator(1 << 20)
         if float(f) != c:
+            if SNAP and abs(float(f) - c) <= 4e-16 * max(1.0, abs(c)):
+                return f
             raise NonRational(f'constant {c!r} is not a small-denominator rational')
         return f
     raise SymbolicError(f'not a number: {type(c).__name__}')
@@ -67,8 +76,18 @@ class Poly:
             return NotImplemented
         return Poly.const(o, self.nv)
 
+    @staticmethod
+    def _elementwise(f, arr):
+        """Poly (op) ndarray: apply the scalar operation to every entry (NumPy defers to us because of the priority)"""
+        out = np.empty(arr.shape, dtype=object)
+        for idx in np.ndindex(arr.shape):
+            out[idx] = f(arr[idx])
+        return out
+
     # ring operations
     def __add__(self, o):
+        if isinstance(o, np.ndarray):
+            return Poly._elementwise(lambda v: self + v, o)
         o = self._lift(o)
         if o is NotImplemented:
             return o
@@ -85,18 +104,24 @@ class Poly:
         return self
 
     def __sub__(self, o):
+        if isinstance(o, np.ndarray):
+            return Poly._elementwise(lambda v: self - v, o)
         o = self._lift(o)
         if o is NotImplemented:
             return o
         return self + (-o)
 
     def __rsub__(self, o):
+        if isinstance(o, np.ndarray):
+            return Poly._elementwise(lambda v: v - self, o)
         o = self._lift(o)
         if o is NotImplemented:
             return o
         return o + (-self)
 
     def __mul__(self, o):
+        if isinstance(o, np.ndarray):
+            return Poly._elementwise(lambda v: self * v, o)
         o = self._lift(o)
         if o is NotImplemented:
             return o
